@@ -10,6 +10,10 @@ git apply "mutants/$n/patch.diff" || { echo "APPLY-FAIL"; exit 1; }
 go build ./... || { echo "BUILD-FAIL"; git checkout -q -- .; exit 1; }
 if [ "$suite" = suite ]; then
   go test -vet=off -count=1 $(go list ./... | grep -v /mutants/) 2>&1 | grep -E "^(FAIL|---)" | grep -v -E "TestSendHistogram|TestSendMetricDimensions|TestSendMetrics|pkg/backends/cloudwatch|^FAIL$" > $wt/.confirm-suite.txt
+  if [ -s $wt/.confirm-suite.txt ] && ! grep -v "internal/awslambda/extension" $wt/.confirm-suite.txt | grep -q .; then
+    # the Lambda extension's integration test listens on fixed ports: it times out when another suite runs on this machine; once more, alone
+    go test -vet=off -count=1 ./internal/awslambda/extension/... 2>&1 | grep -E "^(FAIL|---)" > $wt/.confirm-suite.txt
+  fi
   if [ -s $wt/.confirm-suite.txt ]; then echo "SUITE-FAIL"; cat $wt/.confirm-suite.txt | head; git checkout -q -- .; exit 1; fi
   echo "suite ok"
 fi
